@@ -54,8 +54,10 @@ type job func(pt func()) string
 
 type scenario struct {
 	name    string
-	threads func() []job // fresh jobs (sharing whatever the scenario shares)
+	threads func() []job // fresh jobs (sharing whatever the scenario shares); a job named by post runs after the join
 	bound   [2]int       // preemption bound quick, thorough
+	// post: when true the LAST job is not a thread: it runs after all threads have finished (uses what they built)
+	post bool
 }
 
 func evalJob(p func() parsley.Parser, input string) job {
@@ -151,6 +153,33 @@ func scenarios() []scenario {
 		threads: func() []job { return []job{constructJob("ayx"), constructJob("b")} }})
 	sc = append(sc, scenario{name: `S4 concurrent construction, three threads`, bound: [2]int{1, 2},
 		threads: func() []job { return []job{constructJob("ayx"), constructJob("b"), constructJob("ayxyx")} }})
+	// S6 split construction: the two memoized nonterminals of ONE grammar are constructed by two threads
+	// (scheduling points at the atomic operations inside Memoize through the overlay build), then the grammar is used
+	sc = append(sc, scenario{name: `S6 split construction of one grammar by two threads, then parse "ayxyx"`, bound: [2]int{2, 3}, post: true,
+		threads: func() []job {
+			var a, b pparser.Func
+			r := terminal.Rune
+			return []job{
+				func(pt func()) string {
+					pt()
+					a = combinator.Memoize(combinator.Any(combinator.SeqOf(&b, r('x')), r('a')))
+					pt()
+					return "built A"
+				},
+				func(pt func()) string {
+					pt()
+					b = combinator.Memoize(combinator.Any(combinator.SeqOf(&a, r('y')), r('b')))
+					pt()
+					return "built B"
+				},
+				func(func()) string {
+					f := text.NewFile("f", []byte("ayxyx"))
+					ctx := parsley.NewContext(parsley.NewFileSet(f), text.NewReader(f))
+					n, err := parsley.Parse(ctx, combinator.Sentence(&a))
+					return fmt.Sprintf("tree=%s err=%v calls=%d", impl.Render(n, 1), err, ctx.CallCount())
+				},
+			}
+		}})
 	// S5 one thread constructs while another parses an already built shared grammar
 	sc = append(sc, scenario{name: `S5 construction || parse of a shared grammar`, bound: [2]int{2, 3},
 		threads: func() []job { return []job{constructJob("ayx"), parseJob(hidden, "abb", 1)} }})
@@ -164,6 +193,9 @@ type c14Case struct {
 	Race     string `json:"race_report,omitempty"`
 }
 
+// postJob is the after-join job of the execution being run (scenarios with post == true).
+var postJob job
+
 // solo runs every job alone (no scheduler) to obtain the reference observations.
 func solo(sc *scenario) []string {
 	var out []string
@@ -176,6 +208,11 @@ func solo(sc *scenario) []string {
 
 func bodiesOf(sc *scenario, obs []string) []func(e *sched.Exec) {
 	jobs := sc.threads()
+	if sc.post {
+		// the last job runs after the join (in the check callback, through postJob)
+		postJob = jobs[len(jobs)-1]
+		jobs = jobs[:len(jobs)-1]
+	}
 	bodies := make([]func(e *sched.Exec), len(jobs))
 	for i, j := range jobs {
 		i, j := i, j
@@ -210,7 +247,24 @@ func exploreScenario(res *explore.Result, si int, sc *scenario, tier string, max
 			return false
 		}
 		ok := true
+		if sc.post {
+			func() {
+				defer func() {
+					if r := recover(); r != nil {
+						obs[len(want)-1] = fmt.Sprint("panic: ", r)
+					}
+				}()
+				obs[len(want)-1] = postJob(func() {})
+			}()
+		}
 		for i := range want {
+			if sc.post && i == len(want)-1 {
+				if obs[i] != want[i] {
+					res.Violate("differs-from-solo-run", fmt.Sprintf("%s: after the threads finished under schedule %v (%d preemption(s)) the grammar they built gives %s; built sequentially it gives %s", sc.name, compact(e.Choices()), e.Preemptions(), obs[i], want[i]), cs)
+					ok = false
+				}
+				continue
+			}
 			if pm := e.Panics(i); pm != "" {
 				res.Violate("panic-under-interleaving", fmt.Sprintf("%s: thread %d panicked under schedule %v (%d preemption(s)): %s", sc.name, i, compact(e.Choices()), e.Preemptions(), pm), cs)
 				ok = false
@@ -299,18 +353,137 @@ func RacePassMain(tier string) {
 		counts[name] += workers * len(items)
 		mu.Unlock()
 	}
-	// scenario jobs, all threads of a scenario started together, repeated
+	// scenario jobs, all threads of a scenario started together, repeated; each observation must equal the solo one
+	// (free-running: this part is a sample of real-time interleavings at instruction granularity, complementing
+	// the exhaustive exploration at call granularity; a difference is printed as a DIFFERS line)
 	for _, sc := range scenarios() {
-		for rep := 0; rep < 20; rep++ {
+		sc := sc
+		want := solo(&sc)
+		for rep := 0; rep < 60; rep++ {
 			var wg sync.WaitGroup
-			for _, j := range sc.threads() {
+			jobs := sc.threads()
+			got := make([]string, len(jobs))
+			var after job
+			if sc.post {
+				after = jobs[len(jobs)-1]
+				jobs = jobs[:len(jobs)-1]
+			}
+			for i, j := range jobs {
 				wg.Add(1)
-				j := j
-				go func() { defer wg.Done(); defer func() { _ = recover() }(); j(func() {}) }()
+				i, j := i, j
+				go func() {
+					defer wg.Done()
+					defer func() {
+						if r := recover(); r != nil {
+							got[i] = fmt.Sprint("panic: ", r)
+						}
+					}()
+					got[i] = j(func() {})
+				}()
 			}
 			wg.Wait()
+			if after != nil {
+				func() {
+					defer func() {
+						if r := recover(); r != nil {
+							got[len(got)-1] = fmt.Sprint("panic: ", r)
+						}
+					}()
+					got[len(got)-1] = after(func() {})
+				}()
+			}
+			for i := range got {
+				if got[i] != want[i] {
+					fmt.Printf("DIFFERS %s: thread %d free-running observed %s; alone %s\n", sc.name, i, got[i], want[i])
+				}
+			}
 		}
-		counts["scenario jobs"] += 20
+		counts["scenario jobs"] += 60
+	}
+	// split construction: the two memoized nonterminals of ONE grammar are constructed by two goroutines released
+	// at the same instant, then the grammar is used; the result must equal the solo result (two Memoize calls that
+	// overlap in time must still draw different cache keys)
+	{
+		want := constructJob("ayxyx")(func() {})
+		diffs := 0
+		for k := 0; k < 4000; k++ {
+			var a, b pparser.Func
+			r := terminal.Rune
+			start := make(chan struct{})
+			var wg sync.WaitGroup
+			wg.Add(2)
+			go func() {
+				defer wg.Done()
+				<-start
+				a = combinator.Memoize(combinator.Any(combinator.SeqOf(&b, r('x')), r('a')))
+			}()
+			go func() {
+				defer wg.Done()
+				<-start
+				b = combinator.Memoize(combinator.Any(combinator.SeqOf(&a, r('y')), r('b')))
+			}()
+			close(start)
+			wg.Wait()
+			f := text.NewFile("f", []byte("ayxyx"))
+			ctx := parsley.NewContext(parsley.NewFileSet(f), text.NewReader(f))
+			var got string
+			func() {
+				defer func() {
+					if rec := recover(); rec != nil {
+						got = fmt.Sprint("panic: ", rec)
+					}
+				}()
+				n, err := parsley.Parse(ctx, combinator.Sentence(&a))
+				got = fmt.Sprintf("tree=%s err=%v calls=%d", impl.Render(n, 1), err, ctx.CallCount())
+			}()
+			if got != want {
+				if diffs < 3 {
+					fmt.Printf("DIFFERS split construction (attempt %d): a grammar whose two memoized nonterminals were constructed by two goroutines at the same time parses \"ayxyx\" to %s; built sequentially %s\n", k, got, want)
+				}
+				diffs++
+			}
+		}
+		counts["split construction with result check"] += 4000
+	}
+	// heavy concurrent construction: many goroutines build the two-nonterminal grammar at the same time and parse
+	// with their own copy; every result must equal the solo result
+	{
+		inputs := []string{"ayx", "b", "ayxyx", "a", "ayxy"}
+		want := map[string]string{}
+		for _, in := range inputs {
+			want[in] = constructJob(in)(func() {})
+		}
+		var wg sync.WaitGroup
+		var dmu sync.Mutex
+		diffs := 0
+		for w := 0; w < 8; w++ {
+			wg.Add(1)
+			go func(w int) {
+				defer wg.Done()
+				for k := 0; k < 400; k++ {
+					in := inputs[(k+w)%len(inputs)]
+					var got string
+					func() {
+						defer func() {
+							if r := recover(); r != nil {
+								got = fmt.Sprint("panic: ", r)
+							}
+						}()
+						got = constructJob(in)(func() {})
+					}()
+					if got != want[in] {
+						dmu.Lock()
+						if diffs < 5 {
+							fmt.Printf("DIFFERS concurrent construction: a grammar built while others were being built parses %q to %s; alone %s\n", in, got, want[in])
+						}
+						diffs++
+						dmu.Unlock()
+					}
+				}
+			}(w)
+		}
+		wg.Wait()
+		counts["concurrent construction with result check"] += 3200
 	}
 	maxArith, maxJSON, maxLit := 3, 2, 2
 	if tier == "thorough" {
@@ -370,6 +543,9 @@ func RacePassMain(tier string) {
 func racePass(res *explore.Result, tier string) {
 	self, _ := os.Executable()
 	bin := self + "-race"
+	if b := os.Getenv("VERIF_RACE_BIN"); b != "" {
+		bin = b
+	}
 	if _, err := os.Stat(bin); err != nil {
 		res.Undecided("race pass not run: " + bin + " is missing (bin/check builds it for C14)")
 		return
@@ -422,8 +598,20 @@ func racePass(res *explore.Result, tier string) {
 			res.Add("race_pass_concurrent_items", int64(total))
 		}
 	}
+	for _, line := range strings.Split(stdout.String(), "\n") {
+		if strings.HasPrefix(line, "DIFFERS ") {
+			res.Add("free_running_differences", 1)
+			res.Violate("free-running-differs-from-solo", "free-running concurrent use: "+line[8:], c14Case{Scenario: -1, Name: "race pass", Race: "DIFFERS"})
+		}
+	}
 	if !ran {
-		res.Undecided(fmt.Sprintf("race pass did not complete (%v): %s", err, tail(stderr.String(), 600)))
+		es := stderr.String()
+		if i := strings.Index(es, "fatal error: concurrent map"); i >= 0 {
+			// the runtime itself detected unsynchronised access to a map shared by the concurrent parses
+			res.Violate("fatal:concurrent-map-access", "free-running concurrent parses crashed the process: "+squash(es[i:], 600), c14Case{Scenario: -1, Name: "race pass", Race: "fatal"})
+			return
+		}
+		res.Undecided(fmt.Sprintf("race pass did not complete (%v): %s", err, tail(es, 600)))
 		return
 	}
 	reports := strings.Split(stderr.String(), "WARNING: DATA RACE")
@@ -437,10 +625,7 @@ func racePass(res *explore.Result, tier string) {
 		for _, line := range strings.Split(rep, "\n") {
 			line = strings.TrimSpace(line)
 			if strings.HasPrefix(line, "github.com/opsidian/parsley") {
-				fn := line
-				if k := strings.Index(fn, "("); k > 0 {
-					fn = fn[:k]
-				}
+				fn := strings.TrimSuffix(line, "()")
 				frames = append(frames, strings.TrimPrefix(fn, "github.com/opsidian/parsley/"))
 			}
 		}
@@ -594,6 +779,7 @@ func c14Replay(raw json.RawMessage) *explore.Result {
 			}
 		}
 		if res.ViolationCount == 0 && len(tmp.Violations) > 0 {
+			// (also covers DIFFERS / fatal cases, whose keys are not frames)
 			v := tmp.Violations[0]
 			res.Violate(v.Key, "(a different library race than the recorded one) "+v.What, c)
 		}
@@ -616,9 +802,18 @@ func c14Replay(raw json.RawMessage) *explore.Result {
 			res.Violate("harness:divergence", e.Divergence, c)
 			return res
 		}
+		if sc.post {
+			obs[len(want)-1] = postJob(func() {})
+		}
 		if rep == 0 {
 			first = obs
 			for i := range want {
+				if sc.post && i == len(want)-1 {
+					if obs[i] != want[i] {
+						res.Violate("differs-from-solo-run", fmt.Sprintf("after the join the grammar gives %s; built sequentially %s", obs[i], want[i]), c)
+					}
+					continue
+				}
 				if pm := e.Panics(i); pm != "" {
 					res.Violate("panic-under-interleaving", fmt.Sprintf("thread %d panicked: %s", i, pm), c)
 				} else if obs[i] != want[i] {
@@ -641,14 +836,14 @@ func init() {
 	explore.Register(&explore.Check{
 		ID:    "C14",
 		Level: "model_checking",
-		Rule: "stateless exploration of ALL interleavings with at most B preemptions (B = 2, thorough 3; three-thread scenarios 1/2) of real goroutines under a cooperative scheduler, scheduling point = every Context.RegisterCall (hook under build tag verif) plus a point between every constructor call; scenarios: shared arithmetic grammar (success, syntax error, interpreter error; 2 and 3 threads), shared JSON example parser, shared ambiguous and hidden-left-recursive memoized grammars with two parses per thread, concurrent construction (2 and 3 threads), construction while parsing; oracle: each thread's value/tree/error/call count equals its solo run, no panic; " +
+		Rule: "stateless exploration of ALL interleavings with at most B preemptions (B = 2, thorough 3; three-thread scenarios 1/2) of real goroutines under a cooperative scheduler, scheduling point = every Context.RegisterCall (hook under build tag verif) plus a point between every constructor call and, through an overlay build that compiles the library against a stand-in for sync/atomic, at every atomic operation; scenarios: shared arithmetic grammar (success, syntax error, interpreter error; 2 and 3 threads), shared JSON example parser, shared ambiguous and hidden-left-recursive memoized grammars with two parses per thread, concurrent construction (2 and 3 threads), split construction of one grammar by two threads, construction while parsing; oracle: each thread's value/tree/error/call count equals its solo run, no panic; " +
 			"PLUS a free-running pass of the same jobs and of the arithmetic/JSON/literal/generated-grammar/trim corpora on shared parsers in a -race binary: any race report with a library frame is a violation; " +
 			"state = one complete schedule; transition = one scheduling decision; non-trivial = a schedule with at least one preemption",
 		Assume: []string{
 			"interleavings are explored at the granularity of combinator-to-sub-parser calls; finer-grained conflicts are the race pass's job (happens-before detector, independent of timing once both accesses execute)",
 			"sequentially consistent execution under the cooperative scheduler; weak-memory effects are not modelled",
 		},
-		Shards: func(string) int { return 11 },
+		Shards: func(string) int { return 12 },
 		Run:    c14Run,
 		Replay: c14Replay,
 		Bounds: func(tier string) map[string]any {
